@@ -1,9 +1,13 @@
 import MdkVerif.Model.Media
 import MdkVerif.Proofs.Media
+import MdkVerif.Model.MediaEpoch
+import MdkVerif.Proofs.MediaEpoch
 /-
-  C17 — media part only (the epoch-hint / announcement-order part belongs to the world engine).
-  The HKDF context and the AEAD associated data bind a file's key and ciphertext to
-  (scheme version, original hash, MIME type, file name).  Property theorems only.
+  C17 — media and group-image encryption.  Property theorems only.
+  Part 1: the HKDF context and the AEAD associated data bind a file's key and ciphertext to (scheme
+  version, original hash, MIME type, file name).  Part 2: `decrypt_from_download` and its epoch hint over
+  histories (full statement FALSE of the code: kept as a def with a closed witness).  Part 3: group image.
+  Cryptography is symbolic (assumption A8), so the claim is PARTIAL.
 -/
 namespace MdkVerif.Props.C17
 open MdkVerif MdkVerif.Codec MdkVerif.Tags MdkVerif.Media List
@@ -77,5 +81,277 @@ theorem ctx_ambiguous_without_validation :
 
 example : validateMime [105, 109, 97, 103, 101, 47, 112, 110, 103] = some [105, 109, 97, 103, 101, 47, 112, 110, 103] ∧
     filenameOk [97, 46, 112, 110, 103] = true := by decide
+
+/-! ## Part 2 — the epoch hint -/
+
+section Hint
+open MdkVerif.MediaEpoch
+
+/-- the facts of the source this part rests on (re-extracted on every run) -/
+theorem hint_facts :
+    Generated.mediaFallbackAsModelled = true ∧ Generated.mediaHintAsModelled = true ∧
+    Generated.mediaHashCheckedAfterDecrypt = true ∧ Generated.appMessageFiledUnderReceiverEpoch = true ∧
+    Generated.groupImageDecryptAsModelled = true := by decide
+
+/-- **hint_logic**: an untampered file sealed in a state with exporter secret `s` is decrypted ⇔ `s` is
+    stored under the epoch recorded with the announcing message, or `s` is the current state's secret -/
+theorem hint_logic (c : MClient) (s : Nat) (r : Reference) (p : Nat)
+    (hv : r.version = Generated.defaultSchemeVersion) :
+    decryptFromDownload c (sealBlob s r p) r = .ok p ↔
+      (∃ e, hintOf c r.hash = some e ∧ alookup e c.secrets = some s) ∨ c.cur = some s := by
+  rw [decrypt_sealed_iff c s r p hv]
+  unfold hintedSecret
+  cases h : hintOf c r.hash with
+  | none => simp
+  | some e => simp
+
+/-- **never different bytes**: whatever `decrypt_from_download` returns is the plaintext that was sealed,
+    from an intact ciphertext, under the reference's nonce, with the AAD of the reference's own
+    (version, hash, MIME, file name), and with the reference's content hash -/
+theorem decrypt_integrity (c : MClient) (b : Blob) (r : Reference) (q : Nat)
+    (h : decryptFromDownload c b r = .ok q) :
+    q = b.plain ∧ b.intact = true ∧ b.nonce = r.nonce ∧ b.plainHash = r.hash ∧
+    ∃ l, schemeLabel r.version = some l ∧ b.aad = buildAad l r.hash r.mime r.filename := by
+  obtain ⟨k, hk⟩ := decrypt_ok c b r q h
+  obtain ⟨h1, h2, _, h4, h5, h6⟩ := dav_ok b k r q hk
+  exact ⟨h1, h2, h4, h5, h6⟩
+
+/-- **every field tamper fails**: a blob sealed for the reference `r0` (validated MIME type) opens under a
+    reference `r` only if `r` agrees with `r0` in version, nonce, hash, MIME type and file name -/
+theorem tamper_fails (c : MClient) (s : Nat) (r0 r : Reference) (p q : Nat) (m0 m : Bytes)
+    (hm0 : Tags.validateMime m0 = some r0.mime) (hm : Tags.validateMime m = some r.mime)
+    (hh0 : r0.hash.length = 32) (hh : r.hash.length = 32)
+    (h : decryptFromDownload c (sealBlob s r0 p) r = .ok q) :
+    q = p ∧ r.version = Generated.defaultSchemeVersion ∧ r.nonce = r0.nonce ∧ r.hash = r0.hash ∧
+    r.mime = r0.mime ∧ r.filename = r0.filename := by
+  obtain ⟨h1, _, h3, _, l, hl, haad⟩ := decrypt_integrity c _ r q h
+  have hv : r.version = Generated.defaultSchemeVersion ∧ l = Generated.mediaSchemeLabel := by
+    unfold schemeLabel at hl
+    by_cases hv : r.version = Generated.defaultSchemeVersion
+    · rw [if_pos hv] at hl; cases hl; exact ⟨hv, rfl⟩
+    · rw [if_neg hv] at hl; cases hl
+  obtain ⟨hv1, rfl⟩ := hv
+  have hlab : nulFree Generated.mediaSchemeLabel = true := by decide
+  have := aad_injective_raw _ _ r0.hash r.hash r0.mime r.mime r0.filename r.filename hlab hlab (by omega)
+    (validateMime_nulFree m0 _ hm0) (validateMime_nulFree m _ hm) haad
+  exact ⟨h1, hv1, h3.symm, this.2.1.symm, this.2.2.1.symm, this.2.2.2.symm⟩
+
+/-- a ciphertext that was touched (any bit, truncated, extended) is never opened -/
+theorem tampered_ciphertext_fails (c : MClient) (b : Blob) (r : Reference) (q : Nat) (hb : b.intact = false) :
+    decryptFromDownload c b r ≠ .ok q := by
+  intro h
+  have := (decrypt_integrity c b r q h).2.1
+  rw [hb] at this; cases this
+
+/-- a client that does not hold the group gets `GroupNotFound` or a failure, never bytes -/
+theorem nonmember_fails (c : MClient) (s : Nat) (r : Reference) (p : Nat)
+    (hv : r.version = Generated.defaultSchemeVersion) (hc : c.cur = none) (hs : c.secrets = []) :
+    decryptFromDownload c (sealBlob s r p) r ≠ .ok p := by
+  intro h
+  rcases (hint_logic c s r p hv).mp h with ⟨e, _, h2⟩ | h2
+  · rw [hs] at h2; cases h2
+  · rw [hc] at h2; cases h2
+
+/-- ops that may happen between being in the encrypting state and processing the announcement, if the
+    announcement is to be processed IN ITS OWN EPOCH: anything but a commit (and not the announcement itself) -/
+def PreOk (h : Bytes) : MOp → Prop
+  | .touch => True
+  | .advance _ => False
+  | .announce h' => h' ≠ h
+  | .forget _ => True
+
+/-- ops that keep the secret of epoch `e0` stored -/
+def PostOk (e0 : Nat) : MOp → Prop
+  | .forget e => e ≠ e0
+  | _ => True
+
+theorem pre_preserves (h : Bytes) (s e0 : Nat) (c : MClient) (op : MOp) (hop : PreOk h op)
+    (hc : Inv c ∧ c.cur = some s ∧ c.epoch = e0 ∧ hintOf c h = none) :
+    Inv (step c op) ∧ (step c op).cur = some s ∧ (step c op).epoch = e0 ∧ hintOf (step c op) h = none := by
+  obtain ⟨hi, h1, h2, h3⟩ := hc
+  refine ⟨step_inv c op hi, ?_⟩
+  have tf := touch_fields c
+  cases op with
+  | touch => simp only [step]; exact ⟨tf.2.1 ▸ h1, tf.1 ▸ h2, by unfold hintOf; rw [tf.2.2]; exact h3⟩
+  | advance s' => exact absurd hop id
+  | forget e => exact ⟨h1, h2, h3⟩
+  | announce h' =>
+    have hne : h' ≠ h := hop
+    simp only [step]
+    split
+    · exact ⟨tf.2.1 ▸ h1, tf.1 ▸ h2, by unfold hintOf; rw [tf.2.2]; exact h3⟩
+    · refine ⟨tf.2.1 ▸ h1, tf.1 ▸ h2, ?_⟩
+      unfold hintOf at h3 ⊢
+      show lookupB h ((touch c).tags ++ [(h', (touch c).epoch)]) = none
+      rw [tf.2.2, lookupB_append_none h c.tags h' _ h3, if_neg hne]
+
+theorem post_preserves (h : Bytes) (s e0 : Nat) (c : MClient) (op : MOp) (hop : PostOk e0 op)
+    (hc : hintOf c h = some e0 ∧ alookup e0 c.secrets = some s) :
+    hintOf (step c op) h = some e0 ∧ alookup e0 (step c op).secrets = some s := by
+  obtain ⟨h1, h2⟩ := hc
+  have tf := touch_fields c
+  cases op with
+  | touch => simp only [step]; exact ⟨by unfold hintOf; rw [tf.2.2]; exact h1, touch_keeps c e0 s h2⟩
+  | advance s' => exact ⟨h1, h2⟩
+  | forget e =>
+    have hne : e ≠ e0 := hop
+    exact ⟨h1, by simp only [step]; rw [alookup_aerase_ne e0 e c.secrets hne]; exact h2⟩
+  | announce h' =>
+    simp only [step]
+    have hk := touch_keeps c e0 s h2
+    have ht : hintOf (touch c) h = some e0 := by unfold hintOf; rw [tf.2.2]; exact h1
+    split
+    · exact ⟨ht, hk⟩
+    · exact ⟨by unfold hintOf at ht ⊢; exact lookupB_append h _ _ e0 ht, hk⟩
+
+/-- **C17_partial**: a member that is in the encrypting state (exporter secret `s`), processes the announcing
+    message BEFORE applying any further commit, and never loses the secret stored for that epoch, decrypts the
+    file at ANY later point: after any number of commits, other announcements, other traffic -/
+theorem C17_partial (c : MClient) (s : Nat) (r : Reference) (p : Nat) (pre post : List MOp)
+    (hinv : Inv c) (hcur : c.cur = some s) (hnew : hintOf c r.hash = none)
+    (hv : r.version = Generated.defaultSchemeVersion)
+    (hpre : ∀ op ∈ pre, PreOk r.hash op) (hpost : ∀ op ∈ post, PostOk c.epoch op) :
+    decryptFromDownload (run (step (run c pre) (.announce r.hash)) post) (sealBlob s r p) r = .ok p := by
+  -- before the announcement
+  have h1 : ∀ (l : List MOp) (c' : MClient), (∀ op ∈ l, PreOk r.hash op) →
+      (Inv c' ∧ c'.cur = some s ∧ c'.epoch = c.epoch ∧ hintOf c' r.hash = none) →
+      (Inv (run c' l) ∧ (run c' l).cur = some s ∧ (run c' l).epoch = c.epoch ∧ hintOf (run c' l) r.hash = none) := by
+    intro l
+    induction l with
+    | nil => intro c' _ h; exact h
+    | cons op ops ih =>
+      intro c' hl h
+      exact ih (step c' op) (fun o ho => hl o (by simp [ho])) (pre_preserves r.hash s c.epoch c' op (hl op (by simp)) h)
+  obtain ⟨i1, c1, e1, n1⟩ := h1 pre c hpre ⟨hinv, hcur, rfl, hnew⟩
+  -- the announcement is filed under the current epoch, whose secret gets stored
+  have hann : hintOf (step (run c pre) (.announce r.hash)) r.hash = some c.epoch ∧
+      alookup c.epoch (step (run c pre) (.announce r.hash)).secrets = some s := by
+    have tf := touch_fields (run c pre)
+    have hst := touch_stores (run c pre) s i1 c1
+    rw [e1] at hst
+    have hnone : lookupB r.hash (touch (run c pre)).tags = none := by rw [tf.2.2]; exact n1
+    simp only [step, hnone, Option.isSome_none, Bool.false_eq_true, if_false]
+    refine ⟨?_, hst⟩
+    unfold hintOf
+    show lookupB r.hash ((touch (run c pre)).tags ++ [(r.hash, (touch (run c pre)).epoch)]) = some c.epoch
+    rw [lookupB_append_none r.hash _ r.hash _ hnone, if_pos rfl, tf.1, e1]
+  -- afterwards
+  have h2 : ∀ (l : List MOp) (c' : MClient), (∀ op ∈ l, PostOk c.epoch op) →
+      (hintOf c' r.hash = some c.epoch ∧ alookup c.epoch c'.secrets = some s) →
+      (hintOf (run c' l) r.hash = some c.epoch ∧ alookup c.epoch (run c' l).secrets = some s) := by
+    intro l
+    induction l with
+    | nil => intro c' _ h; exact h
+    | cons op ops ih =>
+      intro c' hl h
+      exact ih (step c' op) (fun o ho => hl o (by simp [ho])) (post_preserves r.hash s c.epoch c' op (hl op (by simp)) h)
+  obtain ⟨f1, f2⟩ := h2 post _ hpost hann
+  exact (hint_logic _ s r p hv).mpr (Or.inl ⟨c.epoch, f1, f2⟩)
+
+/-- the full-strength statement of the property: "… at any later epoch and REGARDLESS OF WHEN the announcing
+    message was processed" — no condition on what happens before the announcement is processed -/
+def C17_full : Prop :=
+  ∀ (c : MClient) (s : Nat) (r : Reference) (p : Nat) (pre post : List MOp),
+    Inv c → c.cur = some s → hintOf c r.hash = none → r.version = Generated.defaultSchemeVersion →
+    (∀ op ∈ pre, ∀ e, op ≠ .forget e) → (∀ op ∈ pre, op ≠ .announce r.hash) → (∀ op ∈ post, PostOk c.epoch op) →
+    decryptFromDownload (run (step (run c pre) (.announce r.hash)) post) (sealBlob s r p) r = .ok p
+
+def wClient : MClient := { cur := some 10, epoch := 1, secrets := [], tags := [] }
+def wRef : Reference :=
+  { hash := List.replicate 32 7, mime := [116, 101, 120, 116, 47, 112, 108, 97, 105, 110], filename := [97],
+    version := Generated.defaultSchemeVersion, nonce := 3 }
+
+/-- **C17_witness_late_announce**: the member is in the encrypting state (epoch 1, secret 10), applies the next
+    commit (epoch 2, secret 11) and only THEN processes the announcing message: the message is filed under epoch 2,
+    the secret stored there is 11, the current secret is 11 — the AEAD fails although the secret of epoch 1 is
+    still stored.  Open known finding `receiver-epoch-tag`; corpus/C17/late_announce.trace -/
+theorem C17_witness_late_announce : ¬ C17_full := by
+  intro h
+  have := h wClient 10 wRef 99 [.touch, .advance 11, .touch] []
+    ⟨fun n _ => rfl, fun s hs => by cases hs⟩ rfl rfl rfl
+    (by intro op hop e; simp at hop; rcases hop with rfl | rfl | rfl <;> simp)
+    (by intro op hop; simp at hop; rcases hop with rfl | rfl | rfl <;> simp)
+    (by intro op hop; cases hop)
+  revert this
+  decide
+
+/-- the witness is a failure of the hint only: the right secret IS still stored under the file's own epoch -/
+example : alookup 1 (run (step (run wClient [.touch, .advance 11, .touch]) (.announce wRef.hash)) []).secrets = some 10 ∧
+    hintOf (run (step (run wClient [.touch, .advance 11, .touch]) (.announce wRef.hash)) []) wRef.hash = some 2 := by decide
+
+/-- the same statement for content that WAS announced before (same hash, e.g. the same file sent again in a
+    later epoch): `C17_partial` without its hypothesis `hnew` -/
+def C17_resend : Prop :=
+  ∀ (c : MClient) (s : Nat) (r : Reference) (p : Nat) (post : List MOp),
+    Inv c → c.cur = some s → r.version = Generated.defaultSchemeVersion → (∀ op ∈ post, PostOk c.epoch op) →
+    decryptFromDownload (run (step c (.announce r.hash)) post) (sealBlob s r p) r = .ok p
+
+/-- **C17_witness_same_content**: the content was announced in epoch 1 (secret 10) and is announced again in
+    epoch 2 (secret 11), processed in its own epoch; the hint lookup by content hash still finds the epoch-1
+    message, so after the next commit the second file is lost although secret 11 is stored under epoch 2.
+    Open known finding `hint-points-to-other-message`; corpus/C17/same_content.hist -/
+theorem C17_witness_same_content : ¬ C17_resend := by
+  intro h
+  have := h { cur := some 11, epoch := 2, secrets := [(2, 11), (1, 10)], tags := [(wRef.hash, 1)] } 11 wRef 99
+    [.advance 12, .touch]
+    ⟨fun n hn => by
+        have h1 : (2 : Nat) ≠ n := by intro e; subst e; exact absurd hn (by decide)
+        have h2 : (1 : Nat) ≠ n := by intro e; subst e; exact absurd hn (by decide)
+        simp [alookup, h1, h2],
+     fun s hs => by simp [alookup] at hs; simp [hs]⟩
+    rfl rfl (by intro op hop; simp at hop; rcases hop with rfl | rfl <;> simp [PostOk])
+  revert this
+  decide
+
+/-- non-vacuity of `C17_partial`: announcement first, then three commits and other traffic -/
+example : decryptFromDownload (run (step (run wClient [.touch]) (.announce wRef.hash))
+    [.advance 11, .touch, .advance 12, .announce [1], .advance 13, .touch, .forget 2]) (sealBlob 10 wRef 99) wRef = .ok 99 := by decide
+
+end Hint
+
+/-! ## Part 3 — group image -/
+
+section Image
+open MdkVerif.MediaEpoch
+
+/-- v2 round trip: a blob sealed under HKDF(seed) opens with the seed and nonce published in the group data -/
+theorem v2_roundtrip (seed nonce plain hash : Nat) (expected : Option Nat) (he : expected = none ∨ expected = some hash) :
+    imageDecrypt { key := .derived seed, nonce := nonce, plain := plain, hash := hash, intact := true } expected seed nonce = .ok plain := by
+  rcases he with rfl | rfl <;> simp [imageDecrypt, hashMismatch]
+
+/-- v1 round trip: a blob sealed under the raw key still opens (the v2 attempt fails first) -/
+theorem v1_roundtrip (key nonce plain hash : Nat) (expected : Option Nat) (he : expected = none ∨ expected = some hash) :
+    imageDecrypt { key := .raw key, nonce := nonce, plain := plain, hash := hash, intact := true } expected key nonce = .ok plain := by
+  rcases he with rfl | rfl <;> simp [imageDecrypt, hashMismatch]
+
+/-- **blob-hash check order**: with an expected hash that does not match, nothing is decrypted at all -/
+theorem hash_checked_first (b : ImgBlob) (h key nonce : Nat) (hne : h ≠ b.hash) :
+    imageDecrypt b (some h) key nonce = .err .hashFailed := by
+  simp [imageDecrypt, hashMismatch, hne]
+
+/-- **v2_then_v1** and tamper evidence: a success returns the sealed plaintext of an intact blob whose nonce is
+    the given one and whose key is the v2 derivation of, or is itself, the given key — nothing else opens -/
+theorem v2_then_v1 (b : ImgBlob) (expected : Option Nat) (key nonce q : Nat)
+    (h : imageDecrypt b expected key nonce = .ok q) :
+    q = b.plain ∧ b.intact = true ∧ b.nonce = nonce ∧ (b.key = .derived key ∨ b.key = .raw key) ∧
+    (∀ e, expected = some e → e = b.hash) := by
+  unfold imageDecrypt at h
+  by_cases hx : hashMismatch expected b.hash = true
+  · rw [if_pos hx] at h; cases h
+  · rw [if_neg hx] at h
+    have hexp : ∀ e, expected = some e → e = b.hash := by
+      intro e he; subst he; simpa [hashMismatch] using hx
+    by_cases h2 : (b.intact && decide (b.key = .derived key) && decide (b.nonce = nonce)) = true
+    · rw [if_pos h2] at h
+      simp only [Bool.and_eq_true, decide_eq_true_eq] at h2
+      cases h; exact ⟨rfl, h2.1.1, h2.2, Or.inl h2.1.2, hexp⟩
+    · rw [if_neg h2] at h
+      by_cases h1 : (b.intact && decide (b.key = .raw key) && decide (b.nonce = nonce)) = true
+      · rw [if_pos h1] at h
+        simp only [Bool.and_eq_true, decide_eq_true_eq] at h1
+        cases h; exact ⟨rfl, h1.1.1, h1.2, Or.inr h1.1.2, hexp⟩
+      · rw [if_neg h1] at h; cases h
+
+end Image
 
 end MdkVerif.Props.C17
